@@ -545,41 +545,49 @@ inductive Conv
 
 def startsWith (l p : List Byte) : Bool := l.take p.length == p
 
+/-- the fractional part: `.` followed by digits (the point is consumed even without digits) -/
+def convFrac (c3 : List Byte) : List Byte × List Byte :=
+  match c3 with
+  | 46 :: r => (r.takeWhile isDigit, r.dropWhile isDigit)
+  | _ => ([], c3)
+
+/-- the exponent part: `e`/`E`, optional sign, at least one digit — otherwise nothing is consumed
+(ALLOW_TRAILING_JUNK); the value saturates at `INT_MAX / 2` -/
+def convExp (c4 : List Byte) : Int × List Byte :=
+  match c4 with
+  | e :: r =>
+    if e == 101 || e == 69 then
+      let ds := (splitSign r).2.2.takeWhile isDigit
+      if ds.isEmpty then (0, c4)
+      else ((if (splitSign r).2.1 then -((min (digitsVal ds) 1073741823 : Nat) : Int) else ((min (digitsVal ds) 1073741823 : Nat) : Int)),
+            (splitSign r).2.2.dropWhile isDigit)
+    else (0, c4)
+  | [] => (0, c4)
+
+/-- digits [. digits] [exponent]; "." alone (no digit anywhere) is junk; "5." and "0." are numbers and consume
+the point.  `n` = length of the whole input, for the count of consumed characters. -/
+def convNum (neg : Bool) (n : Nat) (c1 : List Byte) : Conv :=
+  let zs := c1.takeWhile (· == 48)
+  let c2 := c1.dropWhile (· == 48)
+  let ip := c2.takeWhile isDigit
+  let c3 := c2.dropWhile isDigit
+  if zs.isEmpty && ip.isEmpty && (convFrac c3).1.isEmpty then .junk
+  else .val neg (digitsVal (ip ++ (convFrac c3).1)) ((convExp (convFrac c3).2).1 - ((convFrac c3).1.length : Int))
+         (n - (convExp (convFrac c3).2).2.length)
+
 /-- `StringToDoubleConverter::StringToIeee` with ALLOW_TRAILING_JUNK | ALLOW_LEADING_SPACES,
 "inf", "NaN" (util/double-conversion/string-to-double.cc:419ff); the input starts at a non-space. -/
 def conv (s : List Byte) : Conv :=
   if s.isEmpty then .junk else
-  let n := s.length
-  let (hs, neg, c1) := splitSign s
-  match c1 with
+  match (splitSign s).2.2 with
   | [] => .junk
-  | c :: _ =>
-    if hs && isSpace c then .junk
-    else if c == 105 then (if startsWith c1 [105, 110, 102] then .inf neg (n - (c1.length - 3)) else .junk)
-    else if c == 78 then (if startsWith c1 [78, 97, 78] then .nan (n - (c1.length - 3)) else .junk)
-    else
-      let zs := c1.takeWhile (· == 48)
-      let c2 := c1.dropWhile (· == 48)
-      let ip := c2.takeWhile isDigit
-      let c3 := c2.dropWhile isDigit
-      let (fr, c4) : List Byte × List Byte := match c3 with
-        | 46 :: r => (r.takeWhile isDigit, r.dropWhile isDigit)
-        | _ => ([], c3)
-      -- "." alone (no digit anywhere) is junk; "5." and "0." are numbers and consume the point
-      if zs.isEmpty && ip.isEmpty && fr.isEmpty then .junk
-      else
-        let (ex, c5) : Int × List Byte := match c4 with
-          | e :: r =>
-            if e == 101 || e == 69 then
-              let (_, eneg, r2) := splitSign r
-              let ds := r2.takeWhile isDigit
-              if ds.isEmpty then (0, c4)
-              else
-                let num := min (digitsVal ds) 1073741823
-                ((if eneg then -(num : Int) else (num : Int)), r2.dropWhile isDigit)
-            else (0, c4)
-          | [] => (0, c4)
-        .val neg (digitsVal (ip ++ fr)) (ex - (fr.length : Int)) (n - c5.length)
+  | c :: r =>
+    if (splitSign s).1 && isSpace c then .junk
+    else if c == 105 then
+      (if startsWith (c :: r) [105, 110, 102] then .inf (splitSign s).2.1 (s.length - ((c :: r).length - 3)) else .junk)
+    else if c == 78 then
+      (if startsWith (c :: r) [78, 97, 78] then .nan (s.length - ((c :: r).length - 3)) else .junk)
+    else convNum (splitSign s).2.1 s.length (c :: r)
 
 def numDigits (m : Nat) : Nat := (toString m).length
 
